@@ -87,6 +87,19 @@ class Driver:
         self.variant = variant
         self.session_keys = {}  # abstract id -> object keys of the session
         self.kind_of = {}       # abstract id -> pull kind
+        # the server's default MaxObjectCount (a public configuration value,
+        # pywbem_mock.config.DEFAULT_MAX_OBJECT_COUNT, bound by name in the
+        # provider module): small in every third history, so that opens
+        # WITHOUT MaxObjectCount leave a rest for the pulls (the model's
+        # DefaultMax = 2 < NObj)
+        self.small_default = False
+        try:
+            import pywbem_mock._mainprovider as mp
+            if hasattr(mp, "DEFAULT_MAX_OBJECT_COUNT"):
+                self.small_default = variant % 3 == 0
+                mp.DEFAULT_MAX_OBJECT_COUNT = 2 if self.small_default else 100
+        except ImportError:
+            pass
 
     def nctx(self):
         try:
@@ -341,6 +354,14 @@ def run(ctx):
     ctx.extra["sensitivity"] = ["PullSrvImplLegacy.cfg (MaxObjectCount=0 "
                                 "treated as default) violates ImplRefinesReq"
                                 " as required"]
+    r_trim = ctx.tlc("PullSrvImpl", "PullSrvImplLegacyTrim.cfg",
+                     must_pass=False, count=False,
+                     label="regression config: rest of an open cut with the "
+                     "raw (None) MaxObjectCount must fail")
+    if r_trim.violated is None:
+        raise vlib.MachineryError("PullSrvImplLegacyTrim did not fail")
+    ctx.extra["sensitivity"].append(
+        "PullSrvImplLegacyTrim.cfg violates %s as required" % r_trim.violated)
     # ---- 3. spec -> code: call sequences from TLC ---------------------------
     trans = [(t[1], t[2], t[3]) for t in r_cover.printed("TR")]
     paths, nstates, ntrans = cover_paths(
@@ -370,7 +391,17 @@ def run(ctx):
     traces = [d.events for d in drivers]
     clean = [[{k: v for k, v in e.items() if k != "pyerror"} for e in t]
              for t in traces]
-    verdicts = ctx.validate_traces("PullSrvTrace", "PullSrvTrace.cfg", clean)
+    # histories with the small server default are judged with the trace
+    # configuration whose code-shaped model has the same default (drift only;
+    # the requirement does not mention the default)
+    verdicts = [None] * len(clean)
+    for small, cfg in ((False, "PullSrvTrace.cfg"), (True, "PullSrvTraceD2.cfg")):
+        idx = [i for i, d in enumerate(drivers) if d.small_default == small]
+        if idx:
+            vs = ctx.validate_traces("PullSrvTrace", cfg,
+                                     [clean[i] for i in idx])
+            for i, v in zip(idx, vs):
+                verdicts[i] = v
     opcount = {}
     for t in traces:
         for e in t:
@@ -384,7 +415,8 @@ def run(ctx):
         ctx.report(sig, "%s response violates %s" % (
             d.calls[_call_index(d, v["at"] - 1)]["op"]
             if d.calls else ev["op"], ", ".join(v["clauses"])),
-            {"calls": d.calls, "events": d.events[:v["at"]],
+            {"calls": d.calls, "small_default": d.small_default,
+             "wire": d.wire, "events": d.events[:v["at"]],
              "failing_event": ev, "clauses": v["clauses"]})
     # drift lines are printed by the same TLC runs; collect from the logs
     _collect_drift(ctx)
@@ -425,7 +457,8 @@ def _collect_drift(ctx):
 def replay(rep):
     """Re-run a stored failing history on the current tree and re-validate."""
     case = rep["case"]
-    d = Driver()
+    d = Driver(0 if case.get("small_default") else 1,
+               bool(case.get("wire")))
     calls = case["calls"]
     print("replaying %d calls for %s (%s)" % (len(calls), rep["property"],
                                               rep["signature"]))
@@ -443,7 +476,9 @@ def replay(rep):
     ctx = vlib.Ctx(rep["property"] + "_replay", "quick", rep.get("seed", 0))
     clean = [[{k: v for k, v in e.items() if k != "pyerror"}
               for e in d.events]]
-    v = ctx.validate_traces("PullSrvTrace", "PullSrvTrace.cfg", clean)[0]
+    v = ctx.validate_traces("PullSrvTrace", "PullSrvTraceD2.cfg"
+                            if d.small_default else "PullSrvTrace.cfg",
+                            clean)[0]
     print("verdict:", v)
     if not v["ok"]:
         print("VIOLATION property=%s replay=(reproduced) %s" %
